@@ -33,7 +33,8 @@ func init() {
 	gens["C14"] = genC14
 }
 
-var b64Reps = []byte{'A', '+', '/', '-', '_', '=', '\n', '\r', ' ', '!'}
+// 'A' (sextet 0) and 'B' (sextet 1: non-zero trailing bits) both stand for the alphanumeric class
+var b64Reps = []byte{'A', 'B', '+', '/', '-', '_', '=', '\n', '\r', ' ', '!'}
 var encNames = []string{"rawStd", "rawURL", "std", "url"}
 
 func genC14(tier string, r *rng) {
